@@ -255,6 +255,12 @@ func c12ArmProducerFault(t *rapid.T, c *c12Case) {
 	}
 	p.Fail = true
 	p.FailAfter = rapid.IntRange(0, len(content)).Draw(t, "failafter")
+	// on every invocation, or on exactly one: the first (for a signed message that is the render the
+	// signature is computed from) or - signed messages only - the second (the one that is emitted)
+	p.FailOnCall = rapid.SampledFrom([]int{0, 0, 1, 2}).Draw(t, "failoncall")
+	if p.FailOnCall == 2 && !c.Sign {
+		p.FailOnCall = 1
+	}
 	gen.FaultFlavour(t, spec, idx, true)
 	c.SecondRender = false
 }
@@ -317,7 +323,7 @@ func TestC12(t *testing.T) {
 	rec := core.Rec("C12")
 	rec.Rule = "message programs drawn by rapid (0..3 parts, 0..2 embeds, 0..2 attachments, 3 encodings, all file sources, contents <= 90 bytes); " +
 		"for each program EVERY sink offset k in [0,len(output)) is tried in two sink modes (partial accept / whole-write refusal), on the first or the second render; " +
-		"one program in three instead has one producer failing after 0..len bytes (custom writer functions, or the caller's io.ReadSeeker behind the library's own AttachReadSeeker/EmbedReadSeeker producer failing in Read or in the rewind; error values ErrInjected, io.EOF, a wrapped io.EOF, io.ErrUnexpectedEOF, io.ErrClosedPipe), or its on-disk attachment files deleted before (or between) renders; TestC12Prod runs batches of up to 40 such producer-fault programs per case; one program in six is S/MIME-signed (ECDSA; offsets up to 64 bytes before the end, because boundary and signature change per render). Non-trivial: every faulty render; distinct by (shape incl. per-leaf encoding and content classes, decile of k for multipart messages, sink mode, render index)."
+		"one program in three instead has one producer failing after 0..len bytes, on every invocation or only on the first or (S/MIME) the second one of the render (custom writer functions, or the caller's io.ReadSeeker behind the library's own AttachReadSeeker/EmbedReadSeeker producer failing in Read or in the rewind; error values ErrInjected, io.EOF, a wrapped io.EOF, io.ErrUnexpectedEOF, io.ErrClosedPipe), or its on-disk attachment files deleted before (or between) renders; TestC12Prod runs batches of up to 40 such producer-fault programs per case; one program in six is S/MIME-signed (ECDSA; offsets up to 64 bytes before the end, because boundary and signature change per render). Non-trivial: every faulty render; distinct by (shape incl. per-leaf encoding and content classes, decile of k for multipart messages, sink mode, render index)."
 	rec.Assumptions = []string{"sinks obey the io.Writer contract (n<len(p) only together with an error) and keep failing after the first failure"}
 	core.Prop[c12Case]{ID: "C12", Test: "TestC12", Gen: c12Gen, Run: c12Run}.Check(t)
 }
